@@ -56,6 +56,9 @@ var pcTemplates = []string{
 	`{"anyOf":[{"properties":{"a":{"default":1}}},{"properties":{"a":{"default":2},"b":{"type":"string"}}}]}`,
 	`{"type":"array","items":{"anyOf":[{"type":"integer"},` + pcObj + `]}}`,
 	`{"properties":{"q":{"$ref":"#/definitions/leafdef2"},"b":{"type":"string"}},"definitions":{"leafdef2":{"type":"integer","default":7}}}`,
+	// a closed object (additionalProperties:false) whose members come through pattern properties
+	`{"properties":{"b":{"type":"string"}},"patternProperties":{"^x":{"type":"integer"},"^o":` + pcObj + `},"additionalProperties":false}`,
+	`{"properties":{"l":{"type":"array","items":{"patternProperties":{"^[ab]$":{}},"additionalProperties":false}}}}`,
 	// unusual member names (empty, dotted) and arrays nested directly in arrays
 	`{"properties":{"":{"type":"integer","default":9},"a.b":{"default":1},"b":{"type":"string"},"c":{"properties":{"":{"default":"e"},"x":{"default":"dx"}}}}}`,
 	`{"properties":{"m":{"type":"array","items":{"type":"array","items":` + pcObj + `}}}}`,
